@@ -8,7 +8,7 @@ the library itself decodes from b (all leaves symbolic), unmarshall(marshall(d))
 from spec import cdb_layouts as L
 from spec import responses as R
 
-from .respcommon import same
+from .respcommon import covers, same
 
 MOD = "checks.c06"
 
@@ -96,26 +96,31 @@ def h_simple(ctx, fmt, arg=None):
     from pyscsi.pyscsi.scsi_cdb_report_luns import ReportLuns
     from pyscsi.pyscsi.scsi_cdb_report_target_port_groups import ReportTargetPortGroups
     if fmt == "readcapacity10":
-        data, _ = R.read_capacity(ctx, False)
+        data, exp = R.read_capacity(ctx, False)
         cls = ReadCapacity10
     elif fmt == "readcapacity16":
-        data, _ = R.read_capacity(ctx, True)
+        data, exp = R.read_capacity(ctx, True)
         cls = ReadCapacity16
     elif fmt == "getlbastatus":
-        data, _ = R.get_lba_status(ctx, arg)
+        data, exp = R.get_lba_status(ctx, arg)
         cls = GetLBAStatus
     elif fmt == "reportluns":
-        data, _ = R.report_luns(ctx, arg)
+        data, exp = R.report_luns(ctx, arg)
         cls = ReportLuns
     elif fmt == "rtpg":
-        data, _ = R.report_target_port_groups(ctx, arg[0], arg[1])
+        data, exp = R.report_target_port_groups(ctx, arg[0], arg[1])
         cls = ReportTargetPortGroups
     elif fmt == "readelementstatus":
-        data, _ = R.read_element_status(ctx, arg)
+        data, exp = R.read_element_status(ctx, arg)
         cls = ReadElementStatus
     else:
         raise AssertionError(fmt)
     _roundtrip(ctx, fmt, cls.unmarshall_datain, cls.marshall_datain, data)
+    # the other direction, from the caller's values: parse(build(v)) == v for the values of a canonical response
+    st, back = ctx.attempt(lambda: cls.unmarshall_datain(cls.marshall_datain(exp)))
+    ctx.check("%s: a valid value dictionary can be built and parsed" % fmt, st == "ok", repr(back)[:120])
+    if st == "ok":
+        covers(ctx, "%s: unmarshall(marshall(v))" % fmt, back, exp)
 
 
 def h_transport_id(ctx, kind, name_len):
